@@ -27,6 +27,7 @@ HARNESS_BIN = 'c10'
 RUN_MODULE = 'Run.C10'
 THEOREMS = ['C10_reader_sees_whole', 'C10_open_fd_keeps_old', 'C10_inode_content_never_changes',
             'C10_no_partial_on_failure', 'C10_crash_anywhere_finals_whole', 'C10_success_installs_new',
+            'C10_hit_installs_stored_bytes', 'C10_existing_output_never_absent',
             'C10_outputs_change_only_by_rename', 'C10_special_output_never_replaced', 'C10_mode_window']
 ASSUMPTIONS = [
     'kernel (Model/FsModel.v): rename(2) is one atomic directory switch that leaves the replaced inode untouched; an open '
@@ -87,7 +88,14 @@ def gen_outs(rng, big=False):
             # the output path is a device node (`-o /dev/null`; here a private mknod copy of the null device):
             # the member is written INTO it, the node is never replaced
             old = b'special'
-        outs.append([d, names[i], size, rng.choice(MODES), 1 if rng.chance(1, 5) else 0, old, b'none'])
+        out = [d, names[i], size, rng.choice(MODES), 1 if rng.chance(1, 5) else 0, old, b'none']
+        if rng.chance(1, 5):
+            # contents that compress by far more than 1000:1 (zero / 0xff filled tables, sparse placeholder files):
+            # what is renamed into place must still be the COMPLETE member
+            out.append(rng.choice([b'zeros', b'ff']))
+            if not big and size < 70000:
+                out[2] = rng.choice([70000, 300000])       # (the acceptor replays every byte count: keep the lists short)
+        outs.append(out)
     kind = rng.weighted([('none', 8), ('corrupt', 9), ('no_dir', 1), ('old_dir', 1)])
     if kind == 'corrupt':
         pos = rng.weighted([(1, 4), (n - 1, 4), (rng.below(n), 2)])
@@ -169,11 +177,25 @@ def check_finals(outs, result, fin, left, alias=None):
 
 
 def monitor_strace(case, out):
+    if not (_bad_out(out) or len(out) < 6):
+        _OBS.append((case, out))
+    return monitor_calls(case, out)
+
+
+def monitor_request(case, out):
+    """Whole request through get_cached_or_compile: the same predicate on the calls of the sccache process and on the
+    state the request leaves behind (the compiler of these cases fails, so nothing but the cache touches the outputs)."""
+    vs = monitor_calls(case, out, hit=b'hit')
+    return vs
+
+
+def monitor_calls(case, out, hit=b'ok'):
     if _bad_out(out) or len(out) < 6:
         return ['no observation: %r' % (out,)]
     outs = case[1]
     result, canon, fin, left, alias, raw = out[:6]
-    _OBS.append((case, out))
+    if hit != b'ok' and result == hit:
+        result = b'ok'
     vs = []
     paths = set(o[0] + b'/' + o[1] for o in outs)
     special = set(o[0] + b'/' + o[1] for o in outs if o[5] == b'special')
@@ -218,6 +240,57 @@ def monitor_live(case, out):
     return vs
 
 
+def compare_alternatives(k):
+    """the model lists the admissible observations (one per order in which the outputs may be restored)"""
+    def cmp(m, i):
+        try:
+            io = sx.loads(i)
+            alts = sx.loads(m)
+            return isinstance(io, list) and len(io) > k and isinstance(alts, list) and io[:k] in alts
+        except Exception:
+            return False
+    return cmp
+
+
+def gen_request(rng, tier):
+    n = 400 if tier == 'thorough' else 40
+    cases = []
+    for _ in range(n):
+        def one(name, optional):
+            size = rng.choice(SIZES + [1048576])
+            old = [] if rng.chance(1, 5) else [rng.choice(SIZES if size > 0 else SIZES[1:]), rng.choice(MODES)]
+            o = [b'w', name, size, rng.choice(MODES), optional, old, b'none']
+            if rng.chance(1, 4):
+                o.append(rng.choice([b'zeros', b'ff']))
+                if o[2] < 70000:
+                    o[2] = rng.choice([70000, 300000, 1048576])
+            return o
+        outs = [one(b'foo.o', 0)]
+        if rng.chance(3, 4):
+            outs.append(one(b'foo.dwo', 1))
+        if rng.chance(1, 3):
+            outs[0][6] = rng.choice(FAULTS[1:])
+        if len(outs) == 2 and rng.chance(1, 2):
+            outs[1][6] = rng.choice(FAULTS)
+        cases.append([rng.below(1 << 30), outs])
+    return cases
+
+
+def shrink_request(case):
+    outs = case[1]
+    if len(outs) == 2:
+        yield [case[0], outs[:1]]
+    for i, o in enumerate(outs):
+        if o[6] != b'none' and not (i == 0 and o[6] == b'missing'):
+            yield [case[0], outs[:i] + [o[:6] + [b'none'] + o[7:]] + outs[i + 1:]]
+        if o[5] != []:
+            yield [case[0], outs[:i] + [o[:5] + [[]] + o[6:]] + outs[i + 1:]]
+        if len(o) > 7:
+            yield [case[0], outs[:i] + [o[:7]] + outs[i + 1:]]
+        if o[2] > 100:
+            yield [case[0], outs[:i] + [o[:2] + [100] + o[3:]] + outs[i + 1:]]
+
+
 def compare_drop(k):
     def cmp(m, i):
         try:
@@ -237,6 +310,8 @@ def stats_strace(case, out):
     ks = ['outputs=%d' % len(case[1])]
     for o in case[1]:
         ks.append('fault=' + o[6].decode())
+        if len(o) > 7:
+            ks.append('content=' + o[7].decode())
         ks.append('old=' + ('none' if o[5] == [] else 'dir' if o[5] == b'dir' else 'special' if o[5] == b'special' else 'file'))
         if isinstance(o[5], list) and len(o[5]) == 3:
             ks.append('old_shape=' + o[5][2].decode())
@@ -244,7 +319,7 @@ def stats_strace(case, out):
             ks.append('old_size_vs_new=' + ('empty' if o[5][0] == 0 else 'smaller' if o[5][0] < o[2] else 'larger' if o[5][0] > o[2] else 'equal'))
             if o[5][1] == 0o444:
                 ks.append('old_read_only')
-        ks.append('size<=%d' % next(s for s in SIZES if o[2] <= s))
+        ks.append('size<=%d' % next((s for s in SIZES if o[2] <= s), 1 << 24))
         if o[4]:
             ks.append('optional')
     if not _bad_out(out) and len(out) >= 6:
@@ -293,7 +368,7 @@ def shrink(case):
             yield drop_out(case, i)
     for i, o in enumerate(outs):
         if o[6] != b'none':
-            yield [case[0], outs[:i] + [o[:6] + [b'none']] + outs[i + 1:]] + rest
+            yield [case[0], outs[:i] + [o[:6] + [b'none'] + o[7:]] + outs[i + 1:]] + rest
         if isinstance(o[5], list) and len(o[5]) == 3:
             yield [case[0], outs[:i] + [o[:5] + [o[5][:2]] + o[6:]] + outs[i + 1:]] + rest
         if o[5] != [] and o[5] != b'dir':
@@ -315,7 +390,7 @@ def neighbours(case):
         for f in FAULTS + [b'none']:
             for opt in (0, 1):
                 for old in ([], [777, 0o644], [777, 0o644, b'hardlink'], [777, 0o444, b'symlink'], b'special'):
-                    yield [case[0], outs[:i] + [o[:4] + [opt, old, f]] + outs[i + 1:]] + rest
+                    yield [case[0], outs[:i] + [o[:4] + [opt, old, f] + o[7:]] + outs[i + 1:]] + rest
 
 
 _STRACE = {}
@@ -345,7 +420,7 @@ def prebuild(rep):
 
 def legs(tier):
     ls = _legs(tier)
-    return ls if strace_ok() else [l for l in ls if l.name != 'strace']
+    return ls if strace_ok() else [l for l in ls if l.name not in ('strace', 'request')]
 
 
 def _legs(tier):
@@ -356,6 +431,13 @@ def _legs(tier):
                  'optional members (absent: skipped; stored but unreadable: the extraction fails), old file present/absent/a directory/with a second hard link/a symlink to a file elsewhere/in a 0700 directory/read-only/empty/smaller/larger/a device node (written into, never replaced), missing output directory, one (sometimes two) '
                  'damaged members (missing / first, middle, last byte of the stored zstd stream flipped) at the 2nd, last '
                  'or a random position; non-trivial = an existing file is replaced or a member fails; distinct by case text'),
+        Leg('request', gen_request, monitor=monitor_request, nontrivial=nontrivial, shrink=shrink_request,
+            stats=stats_strace, compare=compare_alternatives(5),
+            rule='whole requests through the real get_cached_or_compile (gcc front end, a shell-script compiler, a real '
+                 'DiskCache): a miss stores the entry, then the request that should be a hit runs under strace over existing '
+                 'foo.o / optional foo.dwo, with the stored entry intact or damaged (obj or dwo member; dwo absent) and a '
+                 'compiler that fails if asked again; sizes 0..1 MiB incl. zero/0xff-filled contents; the model gives the '
+                 'observation for either restore order (HashMap iteration in the real code)'),
         Leg('live', gen_live, monitor=monitor_live, nontrivial=nontrivial, shrink=shrink,
             stats=stats_live, compare=compare_drop(6), shards=8,
             rule='PRNG cases with outputs of 2-8 MiB over old files of 1-6 MiB (a third of them hard-linked or symlinked), 2-5 observers (polling readers, holders of '
